@@ -29,7 +29,7 @@ def run_of(trace, lineno):
 
 def judge(chk, trace, mm):
     for m in mm:
-        chk.classify(m[2], f"{m[2]}: {str(m[3])[:400]}", run_of(trace, m[1]), extra=m)
+        chk.classify(m[2], f"{m[2]}: {str(m[3])[:400]}", lambda m=m, trace=trace: run_of(trace, m[1]), extra=m)
 
 
 def run(tier, seed):
